@@ -503,6 +503,27 @@ func init() {
 		return r, true
 	}
 
+	libModels["strings.Join"] = func(c *libCall) (Val, bool) {
+		sl := c.arg(0)
+		sepv, ok := c.args[1].(T)
+		if !ok {
+			return nil, false
+		}
+		sep, ok := c.fr.ex.Lits.Lookup(sepv)
+		n, okn := constSliceLen(sl)
+		if !ok || !okn || n < 1 || n > 4 {
+			return nil, false
+		}
+		elemT := c.sig.Params().At(0).Type().Underlying().(*types.Slice).Elem()
+		var parts []T
+		for i := 0; i < n; i++ {
+			parts = append(parts, c.st.SliceElem(sl, IntLit(int64(i)), elemT))
+		}
+		r := c.fr.ex.JoinTerm(parts, sep)
+		r = c.st.Name("joined", r)
+		c.st.Assume(Not(Eq(r, bnilT)))
+		return WithGo(r, types.Typ[types.String]), true
+	}
 	for _, an := range []string{"AccAddress", "ValAddress", "ConsAddress"} {
 		name := an
 		libModels["("+sdkPkg+name+").String"] = func(c *libCall) (Val, bool) {
